@@ -148,6 +148,7 @@ def evaluate(args):
     t2 = ast.parse(ss.text(short))
     f2 = find_fn(t2, qual)
     f2.body = m.body
+    f2.args = m.args
     src = ast.unparse(t2) + "\n"
     try:
         compile(src, short, "exec")
